@@ -220,6 +220,20 @@ func runDecFamily(c *runCtx) error {
 				bad = append(bad, fmt.Sprintf("V average speed printed %q", s))
 			}
 			width(&bad, "AverageSpeed", s, w)
+			// the same decorator read again with an unchanged Current after its start was moved (AverageAdjust): the text
+			// follows the new start
+			if ad, ok := dec.(decor.AverageDecorator); ok {
+				d2 := d/3 + 400*time.Millisecond
+				ad.AverageAdjust(time.Now().Add(-d2))
+				t1 := time.Now()
+				s3, _ := dec.Decor(decor.Statistics{Total: cur * 2, Current: cur})
+				lag2 := time.Since(t1) + 2*time.Millisecond
+				if lo2, hi2 := want(d2), want(d2+lag2); lo2 == hi2 && s3 != lo2 {
+					bad = append(bad, fmt.Sprintf("V average speed of %d bytes after AverageAdjust to %v under %q printed %q, want %q", cur, d2, f, s3, lo2))
+				}
+			} else {
+				bad = append(bad, "V NewAverageSpeed is not an AverageDecorator")
+			}
 			// frozen once the bar has completed: a second decorator with a short history, so that a few milliseconds change
 			// the quotient visibly
 			if r.chance(1, 4) && cur > 1000 {
@@ -322,6 +336,30 @@ func runDecFamily(c *runCtx) error {
 					// a meta function decorates the text (colour codes): the reported width stays that of the text itself
 					bad = append(bad, fmt.Sprintf("W OnCompleteMetaOrOnAbortMeta reports width %d for the text \"run\"", w))
 				}
+			}
+			// NewMedian: the median of the last three samples, whatever is read in between
+			med := decor.NewMedian()
+			win := [3]float64{}
+			for i, n := 0, 4+r.intn(12); i < n; i++ {
+				x := float64(r.intn(1000))
+				med.Add(x)
+				win[0], win[1], win[2] = win[1], win[2], x
+				if r.chance(2, 3) {
+					a, b, c := win[0], win[1], win[2]
+					m := math.Max(math.Min(a, b), math.Min(math.Max(a, b), c))
+					if got := med.Value(); got != m {
+						bad = append(bad, fmt.Sprintf("V NewMedian: after sample %d the last three samples are %v, Value() = %v, the median is %v", i, win, got, m))
+						break
+					}
+				}
+			}
+			ts := decor.NewThreadSafeMovingAverage(decor.NewMedian())
+			if decor.NewThreadSafeMovingAverage(ts) != ts {
+				bad = append(bad, "V NewThreadSafeMovingAverage wraps a thread-safe average again")
+			}
+			ts.Set(7)
+			if ts.Value() != 7 {
+				bad = append(bad, fmt.Sprintf("V thread-safe median after Set(7) has value %v", ts.Value()))
 			}
 			cases.WriteString(fmt.Sprintf("M %d %d %q %v\n", k, len(frames), nm, cond))
 			report("misc", bad, false)
